@@ -330,6 +330,7 @@ theorem rel_setChildValue (g : GW) (node child : Int) (vt : VT) (value : Str) (a
   unfold setChildValue
   apply rel_ifKnown hR; intro g1
   apply rel_withNode hR; intro n hn
+  unfold setKnown
   split
   · exact rel_fail hR g1 _
   · split
